@@ -1,12 +1,15 @@
 pub mod array_bfs;
 pub mod c01;
+pub mod c02;
+pub mod c03;
 pub mod c05;
 pub mod c13;
 pub mod recv;
+pub mod views;
 pub mod elem;
 
 use crate::engine::Prop;
 
 pub fn all() -> Vec<&'static dyn Prop> {
-    vec![&c01::C01, &c05::C05, &c13::C13]
+    vec![&c01::C01, &c02::C02, &c03::C03, &c05::C05, &c13::C13]
 }
